@@ -111,12 +111,15 @@ Qed.
 Lemma be4_length l : length (be 4 l) = 4%nat.
 Proof. reflexivity. Qed.
 
+(** what [computeNeededBytes] makes of an announced length [l] *)
+Definition hdr_need (W l : Z) : Z := if l >? max_int W - 16 then -1 else 8 + l + pad8 l.
+
 (** [computeNeededBytes] on anything that starts with a header announcing length [l] *)
-Lemma needed_bytes_header tag ty l x :
-  length tag = 3%nat -> 0 <= l < 2 ^ 32 ->
-  needed_bytes 64 (tag ++ [ty] ++ be 4 l ++ x) = 8 + l + pad8 l.
+Lemma needed_bytes_header W tag ty l x :
+  0 < W -> length tag = 3%nat -> 0 <= l < 2 ^ 32 ->
+  needed_bytes W (tag ++ [ty] ++ be 4 l ++ x) = hdr_need W l.
 Proof.
-  intros Ht Hl. unfold needed_bytes, rd_padded_len, rd_len.
+  intros HW Ht Hl. unfold needed_bytes, hdr_need, rd_padded_len, rd_len.
   destruct tag as [|t0 [|t1 [|t2 [|? ?]]]]; try discriminate Ht.
   set (b := be 4 l).
   assert (Hb : exists b0 b1 b2 b3, b = [b0; b1; b2; b3]) by (unfold b, be; eauto).
@@ -130,12 +133,13 @@ Proof.
   destruct (Z.eqb_spec (8 + len x) 0) as [?|_]; [lia|].
   change (take 4 (drop 4 (t0 :: t1 :: t2 :: ty :: b0 :: b1 :: b2 :: b3 :: x))) with [b0; b1; b2; b3].
   rewrite Hu.
+  destruct (Z.gtb_spec l (max_int W - 16)) as [Hbig|Hfit]; [reflexivity|].
+  unfold max_int in Hfit.
   pose proof (pad8_range l) as Hp.
-  assert (H31 : 2 ^ 32 < 2 ^ (64 - 1) - 16) by (vm_compute; reflexivity).
-  assert (H63 : 0 < 2 ^ (64 - 1)) by (vm_compute; reflexivity).
-  rewrite (wrap_small 64 l) by lia.
+  assert (Hpos : 0 < 2 ^ (W - 1)) by (apply Z.pow_pos_nonneg; lia).
+  rewrite (wrap_small W l) by lia.
   rewrite pad_for_len8_nonneg by lia.
-  rewrite (wrap_small 64 (l + pad8 l)) by lia.
+  rewrite (wrap_small W (l + pad8 l)) by lia.
   rewrite wrap_small by lia. lia.
 Qed.
 
@@ -294,7 +298,7 @@ Section Step.
       let buf := l_buf s ++ chunk in
       let read' := read + len chunk in
       let need' := needed_bytes W buf in
-      if (0 <? max) && (need' >? max) then Done M (mkRes RTooBig t' cap trace) else
+      if (need' <? 0) || ((0 <? max) && (need' >? max)) then Done M (mkRes RTooBig t' cap trace) else
       if need' <=? read' then
         if (need' <? 0) || (need' >? cap) then Done M (mkRes RPanic t' cap trace)
         else Done M (mkRes (RMsg (um (take need' buf))) t' cap trace)
@@ -332,7 +336,7 @@ Section Step.
     destruct (_ || _) eqn:Hp in H; [discriminate|].
     apply orb_false_iff in Hp. destruct Hp as [Hp1 Hp2].
     destruct (Z.eqb_spec (len chunk) 0) as [?|Hne]; [destruct err; discriminate|].
-    destruct (_ && _) in H; [discriminate|].
+    destruct (_ || _) in H; [discriminate|].
     destruct (Z.leb_spec (needed_bytes W (l_buf s ++ chunk)) (l_read s + len chunk)) as [?|Hlt].
     { destruct (_ || _) in H; discriminate. }
     destruct err; [discriminate|]. inversion H; subst s'; unfold inv0; cbn [l_tr l_buf l_read l_need l_cap l_trace].
@@ -425,13 +429,14 @@ Section Safety.
   Variable D : list Z.
   Variable N : Z.
   Hypothesis HN : forall b x, D = b ++ x -> 8 <= len b -> needed_bytes W b = N.
-  Hypothesis HN8 : 8 <= N.
+  Hypothesis HN8 : N < 0 \/ 8 <= N.   (* negative: not representable by an int *)
 
   Notation recv_step := (recv_step M um W max).
   Notation recv_loop := (recv_loop M um W max).
   Notation recv := (recv M um W max).
 
-  Definition oversize : Prop := 0 < max /\ max < N.
+  (** the announced size is refused: unrepresentable, or over the configured limit *)
+  Definition oversize : Prop := N < 0 \/ (0 < max /\ max < N).
 
   Definition inv (s : lstate) : Prop :=
     inv0 W s /\
@@ -449,7 +454,7 @@ Section Safety.
       (len p <= 8 \/ len p <= N) /\
       (oversize -> len p <= 8) /\
       (forall x, r_out r = RMsg x -> len p = N /\ x = um (take N D) /\ ~ oversize) /\
-      (r_out r = RTooBig -> 0 < max /\ (max < 8 \/ (8 <= len p /\ max < N))) /\
+      (r_out r = RTooBig -> (0 < max /\ max < 8) \/ (8 <= len p /\ oversize)) /\
       (r_cap r = buf0 \/ (r_cap r = N /\ buf0 < N /\ 8 <= len p /\ ~ oversize)) /\
       trace_ok N 0 (r_trace r).
 
@@ -526,10 +531,9 @@ Section Safety.
       assert (Hpost : forall o,
                 o <> RPanic ->
                 (forall x, o = RMsg x -> l_read s + len chunk = N /\ x = um (l_buf s ++ chunk) /\ ~ oversize) ->
-                (o = RTooBig -> 0 < max /\ (if l_read s + len chunk <? 8 then 8 else N) > max) ->
-                (8 <= l_read s + len chunk -> 8 <= l_read s \/ ~ oversize \/ o = RTooBig) ->
+                (o = RTooBig -> (0 < max /\ max < 8) \/ (8 <= l_read s + len chunk /\ oversize)) ->
                 post (mkRes o t' cap' (l_trace s ++ [((if l_read s <? 8 then 8 else N) - l_read s, len chunk)]))).
-      { intros o Ho1 Ho2 Ho3 Ho4. unfold post; cbn [r_out r_tr r_cap r_trace]. split; [exact Ho1|].
+      { intros o Ho1 Ho2 Ho3. unfold post; cbn [r_out r_tr r_cap r_trace]. split; [exact Ho1|].
         exists (l_buf s ++ chunk). rewrite consumed_tsum; cbn [r_trace]. rewrite Hts, Hlen'.
         split; [exact HD'|]. split; [reflexivity|].
         split; [destruct (Z.ltb_spec (l_read s) 8); lia|].
@@ -537,44 +541,45 @@ Section Safety.
         split.
         { intros x Hx. destruct (Ho2 x Hx) as (E1 & E2 & E3). split; [exact E1|]. split; [|exact E3].
           rewrite E2. f_equal. rewrite HD'. rewrite <- E1, <- Hlen'. symmetry. apply st_take_app_exact. }
-        split.
-        { intros Hx. destruct (Ho3 Hx) as [Hm Hgt]. split; [exact Hm|].
-          destruct (Z.ltb_spec (l_read s + len chunk) 8); [left; lia | right; lia]. }
+        split; [exact Ho3|].
         split; [|exact Htrace].
         destruct Hcap' as [?|(Hc1 & Hc2 & Hc3)]; [left; assumption|].
         right. repeat split; try assumption; try lia. apply Hov. exact Hc3. }
-      destruct ((0 <? max) && ((if l_read s + len chunk <? 8 then 8 else N) >? max)) eqn:Hbig.
+      set (need' := if l_read s + len chunk <? 8 then 8 else N) in *.
+      destruct ((need' <? 0) || ((0 <? max) && (need' >? max))) eqn:Hbig.
       + (* too big *)
-        apply andb_true_iff in Hbig. destruct Hbig as [Hb1 Hb2].
-        apply Z.ltb_lt in Hb1. apply Z.gtb_lt in Hb2.
-        apply Hpost; try discriminate.
-        * intros _. split; lia.
-        * intros _. right. right. reflexivity.
-      + assert (Hnb : ~ (0 < max /\ max < (if l_read s + len chunk <? 8 then 8 else N))).
+        apply Hpost; try discriminate. intros _.
+        apply orb_true_iff in Hbig. destruct Hbig as [Hb|Hb].
+        * apply Z.ltb_lt in Hb. right. unfold need' in Hb. destruct (Z.ltb_spec (l_read s + len chunk) 8); [lia|].
+          split; [lia | left; exact Hb].
+        * apply andb_true_iff in Hb. destruct Hb as [Hb1 Hb2]. apply Z.ltb_lt in Hb1. apply Z.gtb_lt in Hb2.
+          unfold need' in Hb2. destruct (Z.ltb_spec (l_read s + len chunk) 8); [left; lia|].
+          right. split; [lia | right; lia].
+      + apply orb_false_iff in Hbig. destruct Hbig as [Hneg Hbig]. apply Z.ltb_ge in Hneg.
+        assert (Hnb : ~ (0 < max /\ max < need')).
         { intros [Hb1 Hb2]. apply andb_false_iff in Hbig. destruct Hbig as [Hb|Hb].
           - apply Z.ltb_ge in Hb. lia.
-          - destruct (Z.gtb_spec (if l_read s + len chunk <? 8 then 8 else N) max); [discriminate | lia]. }
-        destruct (Z.leb_spec (if l_read s + len chunk <? 8 then 8 else N) (l_read s + len chunk)) as [Hfull|Hmore].
+          - destruct (Z.gtb_spec need' max); [discriminate | lia]. }
+        assert (Hno : 8 <= l_read s + len chunk -> ~ oversize).
+        { intros H8 [Hos|Hos]; unfold need' in *; destruct (Z.ltb_spec (l_read s + len chunk) 8); lia. }
+        destruct (Z.leb_spec need' (l_read s + len chunk)) as [Hfull|Hmore].
         * (* the message is complete *)
-          assert (HNr : l_read s + len chunk = N /\ (if l_read s + len chunk <? 8 then 8 else N) = N).
-          { destruct (Z.ltb_spec (l_read s + len chunk) 8); destruct (Z.ltb_spec (l_read s) 8); lia. }
+          assert (HNr : l_read s + len chunk = N /\ need' = N).
+          { unfold need' in *. destruct (Z.ltb_spec (l_read s + len chunk) 8); destruct (Z.ltb_spec (l_read s) 8); lia. }
           destruct HNr as [HNr HNe]. rewrite HNe in *.
           destruct (Z.ltb_spec N 0) as [?|_]; [lia|].
           destruct (Z.gtb_spec N cap') as [Hbad|_].
           { exfalso. destruct (Z.ltb_spec (l_read s) 8); lia. }
           cbn [orb]. apply Hpost; try discriminate.
-          -- intros x Hx. inversion Hx; subst x. split; [exact HNr|]. split.
-             ++ f_equal. apply st_take_all. lia.
-             ++ unfold oversize. exact Hnb.
-          -- intros _. right. left. unfold oversize. exact Hnb.
+          intros x Hx. inversion Hx; subst x. split; [exact HNr|]. split.
+          -- f_equal. apply st_take_all. lia.
+          -- apply Hno. destruct (Z.ltb_spec (l_read s) 8); lia.
         * destruct err as [e|].
-          -- apply Hpost; try discriminate.
-             intros H8. destruct (Z.ltb_spec (l_read s + len chunk) 8); [lia|]. right. left. exact Hnb.
+          -- apply Hpost; discriminate.
           -- (* next iteration *)
              unfold inv, inv0; cbn [l_tr l_buf l_read l_need l_cap l_trace].
-             rewrite Hneed'. rewrite Hlen'. repeat split; try assumption; try lia.
-             ++ intros H8. destruct (Z.ltb_spec (l_read s + len chunk) 8); [lia|]. exact Hnb.
-             ++ intros _ Hmx. destruct (Z.ltb_spec (l_read s + len chunk) 8); lia.
+             rewrite Hneed'. rewrite Hlen'. fold need'. repeat split; try assumption; try lia.
+             intros _ Hmx. unfold need' in *. destruct (Z.ltb_spec (l_read s + len chunk) 8); lia.
   Qed.
 
   Lemma loop_safe fuel : forall s, inv s -> (mu s < fuel)%nat -> post (recv_loop fuel s).
@@ -604,7 +609,7 @@ Section Progress.
   Variable D : list Z.
   Variable N : Z.
   Hypothesis HN : forall b x, D = b ++ x -> 8 <= len b -> needed_bytes W b = N.
-  Hypothesis HN8 : 8 <= N.
+  Hypothesis HN8 : N < 0 \/ 8 <= N.
   Hypothesis Hmax8 : 0 < max -> 8 <= max.   (* a configured limit admits at least a header *)
   Variable e : Z.                            (* the transport's end error *)
 
@@ -620,7 +625,7 @@ Section Progress.
     (~ ovs -> N <= len D ->
        r_out r = RMsg (um (take N D)) /\ t_rest (r_tr r) = drop N D /\
        faithful (t_sched (r_tr r)) /\ t_end (r_tr r) = e) /\
-    (len D < N -> (len D < 8 \/ ~ ovs) -> r_out r = RErr e /\ t_rest (r_tr r) = []).
+    (len D < 8 \/ (~ ovs /\ len D < N) -> r_out r = RErr e /\ t_rest (r_tr r) = []).
 
   Lemma step_progress s :
     inv s -> faithful (t_sched (l_tr s)) -> t_end (l_tr s) = e ->
@@ -663,8 +668,8 @@ Section Progress.
     { intros tr' Hd Hshort Hno. rewrite Hd in HlenD. rewrite st_len_nil in HlenD.
       unfold spec; cbn [r_out r_tr]. split; [|split].
       - intros H8 Hos. exfalso. apply Hno; [lia | exact Hos].
-      - intros _ HNle. exfalso. destruct (Z.ltb_spec (l_read s + len chunk) 8); lia.
-      - intros _ _. split; [reflexivity | exact Hd]. }
+      - intros Hnos HNle. exfalso. unfold oversize in Hnos. destruct (Z.ltb_spec (l_read s + len chunk) 8); lia.
+      - intros _. split; [reflexivity | exact Hd]. }
     destruct (Z.eqb_spec (len chunk) 0) as [Hz|Hnz].
     - destruct (t_rest (l_tr s)) as [|x0 xs] eqn:Hrest.
       + destruct (Hempty eq_refl) as [Hch Herr]. subst chunk err.
@@ -675,42 +680,47 @@ Section Progress.
       + exfalso. assert (Hne : x0 :: xs <> []) by discriminate. destruct (Hnonempty Hne) as [H1 _]. lia.
     - rewrite Hneed'. rewrite Hneed in *.
       assert (Hrd' : l_read s + len chunk <= (if l_read s <? 8 then 8 else N)) by lia.
-      destruct ((0 <? max) && ((if l_read s + len chunk <? 8 then 8 else N) >? max)) eqn:Hbig.
-      + apply andb_true_iff in Hbig. destruct Hbig as [Hb1 Hb2].
-        apply Z.ltb_lt in Hb1. apply Z.gtb_lt in Hb2. specialize (Hmax8 Hb1).
-        assert (Hos : ovs) by (unfold oversize; destruct (Z.ltb_spec (l_read s + len chunk) 8); lia).
+      set (need' := if l_read s + len chunk <? 8 then 8 else N) in *.
+      destruct ((need' <? 0) || ((0 <? max) && (need' >? max))) eqn:Hbig.
+      + assert (Hos : ovs /\ 8 <= l_read s + len chunk).
+        { apply orb_true_iff in Hbig. unfold oversize, need' in *. destruct Hbig as [Hb|Hb].
+          - apply Z.ltb_lt in Hb. destruct (Z.ltb_spec (l_read s + len chunk) 8); lia.
+          - apply andb_true_iff in Hb. destruct Hb as [Hb1 Hb2]. apply Z.ltb_lt in Hb1. apply Z.gtb_lt in Hb2.
+            specialize (Hmax8 Hb1). destruct (Z.ltb_spec (l_read s + len chunk) 8); lia. }
+        destruct Hos as [Hos H8'].
         unfold spec; cbn [r_out r_tr]. split; [|split].
         * intros _ _. reflexivity.
         * intros Hno _. exfalso. exact (Hno Hos).
-        * intros Hshort [H8|Hno]; [|exfalso; exact (Hno Hos)].
-          exfalso. destruct (Z.ltb_spec (l_read s + len chunk) 8); lia.
-      + assert (Hnb : ~ (0 < max /\ max < (if l_read s + len chunk <? 8 then 8 else N))).
+        * intros [H8|[Hno _]]; [exfalso; lia | exfalso; exact (Hno Hos)].
+      + apply orb_false_iff in Hbig. destruct Hbig as [Hneg Hbig]. apply Z.ltb_ge in Hneg.
+        assert (Hnb : ~ (0 < max /\ max < need')).
         { intros [Hb1 Hb2]. apply andb_false_iff in Hbig. destruct Hbig as [Hb|Hb].
           - apply Z.ltb_ge in Hb. lia.
-          - destruct (Z.gtb_spec (if l_read s + len chunk <? 8 then 8 else N) max); [discriminate | lia]. }
-        destruct (Z.leb_spec (if l_read s + len chunk <? 8 then 8 else N) (l_read s + len chunk)) as [Hfull|Hmore].
-        * assert (HNr : l_read s + len chunk = N /\ (if l_read s + len chunk <? 8 then 8 else N) = N).
-          { destruct (Z.ltb_spec (l_read s + len chunk) 8); destruct (Z.ltb_spec (l_read s) 8); lia. }
+          - destruct (Z.gtb_spec need' max); [discriminate | lia]. }
+        assert (Hno : 8 <= l_read s + len chunk -> ~ ovs).
+        { intros H8 [Hos|Hos]; unfold need' in *; destruct (Z.ltb_spec (l_read s + len chunk) 8); lia. }
+        destruct (Z.leb_spec need' (l_read s + len chunk)) as [Hfull|Hmore].
+        * assert (HNr : l_read s + len chunk = N /\ need' = N).
+          { unfold need' in *. destruct (Z.ltb_spec (l_read s + len chunk) 8); destruct (Z.ltb_spec (l_read s) 8); lia. }
           destruct HNr as [HNr HNe]. rewrite HNe in *.
           destruct (Z.ltb_spec N 0) as [?|_]; [lia|].
           destruct (Z.gtb_spec N cap') as [Hbad|_].
           { exfalso. destruct (Z.ltb_spec (l_read s) 8); lia. }
           cbn [orb]. unfold spec; cbn [r_out r_tr]. split; [|split].
-          -- intros _ Hos. exfalso. apply Hnb. exact Hos.
+          -- intros _ Hos. exfalso. apply Hno; [destruct (Z.ltb_spec (l_read s) 8); lia | exact Hos].
           -- intros _ _. split; [|split; [|split]].
              ++ f_equal. f_equal. rewrite HD'. rewrite <- HNr, <- Hlen'. rewrite st_take_app_exact.
                 apply st_take_all. lia.
              ++ rewrite HD'. rewrite <- HNr, <- Hlen'. symmetry. apply st_drop_app_exact.
              ++ exact Hf'.
              ++ exact Hend.
-          -- intros Hshort _. exfalso. lia.
+          -- intros [H8|[_ Hshort]]; exfalso; destruct (Z.ltb_spec (l_read s) 8); lia.
         * destruct err as [e'|].
           -- destruct (t_rest (l_tr s)) as [|x0 xs] eqn:Hrest.
              { destruct (Hempty eq_refl) as [Hch _]. subst chunk. rewrite st_len_nil in Hnz. lia. }
              assert (Hne : x0 :: xs <> []) by discriminate.
              destruct (Hnonempty Hne) as [_ [Habs|[He' Hd]]]; [discriminate|].
-             inversion He'; subst e'. apply Hdrained; [exact Hd | exact Hmore |].
-             intros H8. destruct (Z.ltb_spec (l_read s + len chunk) 8); [lia | exact Hnb].
+             inversion He'; subst e'. apply Hdrained; [exact Hd | exact Hmore | exact Hno].
           -- cbn [l_tr]. split; [exact Hf' | exact Hend].
   Qed.
 
@@ -757,15 +767,34 @@ Qed.
 Lemma header_total_ge8 h total : is_header h total -> 8 <= total.
 Proof. intros (tag & ty & l & _ & _ & Hl & Ht). pose proof (pad8_range l). lia. Qed.
 
-(** The size computed from any received prefix that contains the header [h] *)
-Lemma needed_of_header h total D :
-  is_header h total ->
-  (forall b x, D = b ++ x -> 8 <= len b -> exists y, b = h ++ y) ->
-  forall b x, D = b ++ x -> 8 <= len b -> needed_bytes 64 b = total.
+Lemma hdr_need_cases W l : 0 <= l ->
+  (hdr_need W l = -1 /\ max_int W < 8 + l + pad8 l + 8) \/ (hdr_need W l = 8 + l + pad8 l /\ 8 + l + pad8 l <= max_int W).
 Proof.
-  intros (tag & ty & l & Hh & Ht & Hl & Htot) Hpre b x HD Hb.
-  destruct (Hpre b x HD Hb) as [y Hy]. subst b h total.
-  rewrite <- !app_assoc. apply needed_bytes_header; assumption.
+  intros Hl. unfold hdr_need. pose proof (pad8_range l).
+  destruct (Z.gtb_spec l (max_int W - 16)); [left | right]; split; try reflexivity; lia.
+Qed.
+
+Lemma hdr_need_fits W l : 0 <= l -> 8 + l + pad8 l + 8 <= max_int W -> hdr_need W l = 8 + l + pad8 l.
+Proof. intros Hl Hf. destruct (hdr_need_cases W l Hl) as [[_ ?]|[? _]]; [lia | assumption]. Qed.
+
+Lemma hdr_need_unfit W l : 0 <= l -> max_int W < 8 + l + pad8 l -> hdr_need W l = -1.
+Proof. intros Hl Hf. destruct (hdr_need_cases W l Hl) as [[? _]|[_ ?]]; [assumption | lia]. Qed.
+
+(** The size computed from any received prefix that contains the header [h]:
+    the announced total, or -1 when an int cannot hold it. *)
+Lemma needed_of_header W h total D :
+  0 < W -> is_header h total ->
+  (forall b x, D = b ++ x -> 8 <= len b -> exists y, b = h ++ y) ->
+  exists N, (N = -1 \/ N = total) /\ (total + 8 <= max_int W -> N = total) /\ (max_int W < total -> N = -1) /\
+    forall b x, D = b ++ x -> 8 <= len b -> needed_bytes W b = N.
+Proof.
+  intros HW (tag & ty & l & Hh & Ht & Hl & Htot) Hpre.
+  exists (hdr_need W l). subst total. split; [|split; [|split]].
+  - destruct (hdr_need_cases W l (proj1 Hl)) as [[? _]|[? _]]; [left | right]; assumption.
+  - apply hdr_need_fits. lia.
+  - apply hdr_need_unfit. lia.
+  - intros b x HD Hb. destruct (Hpre b x HD Hb) as [y Hy]. subst b h.
+    rewrite <- !app_assoc. apply needed_bytes_header; assumption.
 Qed.
 
 Lemma frame_header f : is_frame f -> exists h body, f = h ++ body /\ is_header h (len f).
@@ -779,32 +808,48 @@ Qed.
 Lemma frame_len_ge8 f : is_frame f -> 8 <= len f.
 Proof. intros Hf. destruct (frame_header f Hf) as (h & body & _ & Hh). exact (header_total_ge8 _ _ Hh). Qed.
 
-Lemma HN_frame f tail : is_frame f ->
-  forall b x, f ++ tail = b ++ x -> 8 <= len b -> needed_bytes 64 b = len f.
+(** Every item fits a 64-bit int with room to spare. *)
+Lemma frame_fits_64 f : is_frame f -> len f + 8 <= max_int 64.
 Proof.
-  intros Hf. destruct (frame_header f Hf) as (h & body & Hfb & Hh).
-  apply (needed_of_header h (len f) (f ++ tail) Hh).
-  intros b x HD Hb. apply (prefix_split h b x (body ++ tail)).
-  - rewrite <- HD, Hfb, <- app_assoc. reflexivity.
-  - rewrite (header_len _ _ Hh). exact Hb.
+  intros (tag & ty & l & body & Hf & Ht & Hl & Hb). subst f.
+  unfold len in *. rewrite !app_length, Ht, be4_length. cbn [length].
+  pose proof (pad8_range l). change (2 ^ 32) with 4294967296 in Hl.
+  change (max_int 64) with 9223372036854775807. lia.
 Qed.
 
-Lemma HN_cut p f q : is_frame f -> f = p ++ q ->
-  forall b x, p = b ++ x -> 8 <= len b -> needed_bytes 64 b = len f.
+Lemma HN_frame_gen W f tail : 0 < W -> is_frame f ->
+  exists N, (N = -1 \/ N = len f) /\ (len f + 8 <= max_int W -> N = len f) /\
+    forall b x, f ++ tail = b ++ x -> 8 <= len b -> needed_bytes W b = N.
 Proof.
-  intros Hf Hfp. destruct (frame_header f Hf) as (h & body & Hfb & Hh).
-  apply (needed_of_header h (len f) p Hh).
-  intros b x HD Hb. apply (prefix_split h b (x ++ q) body).
-  - rewrite app_assoc, <- HD, <- Hfp. exact Hfb.
-  - rewrite (header_len _ _ Hh). exact Hb.
+  intros HW Hf. destruct (frame_header f Hf) as (h & body & Hfb & Hh).
+  destruct (needed_of_header W h (len f) (f ++ tail) HW Hh) as (N & H1 & H2 & _ & H4).
+  - intros b x HD Hb. apply (prefix_split h b x (body ++ tail)).
+    + rewrite <- HD, Hfb, <- app_assoc. reflexivity.
+    + rewrite (header_len _ _ Hh). exact Hb.
+  - exists N. repeat split; assumption.
 Qed.
 
-Lemma HN_header h total z : is_header h total ->
-  forall b x, h ++ z = b ++ x -> 8 <= len b -> needed_bytes 64 b = total.
+Lemma HN_cut_gen W p f q : 0 < W -> is_frame f -> f = p ++ q ->
+  exists N, (N = -1 \/ N = len f) /\ (len f + 8 <= max_int W -> N = len f) /\
+    forall b x, p = b ++ x -> 8 <= len b -> needed_bytes W b = N.
 Proof.
-  intros Hh. apply (needed_of_header h total (h ++ z) Hh).
-  intros b x HD Hb. apply (prefix_split h b x z); [symmetry; exact HD|].
-  rewrite (header_len _ _ Hh). exact Hb.
+  intros HW Hf Hfp. destruct (frame_header f Hf) as (h & body & Hfb & Hh).
+  destruct (needed_of_header W h (len f) p HW Hh) as (N & H1 & H2 & _ & H4).
+  - intros b x HD Hb. apply (prefix_split h b (x ++ q) body).
+    + rewrite app_assoc, <- HD, <- Hfp. exact Hfb.
+    + rewrite (header_len _ _ Hh). exact Hb.
+  - exists N. repeat split; assumption.
+Qed.
+
+Lemma HN_header_gen W h total z : 0 < W -> is_header h total ->
+  exists N, (N = -1 \/ N = total) /\ (max_int W < total -> N = -1) /\
+    forall b x, h ++ z = b ++ x -> 8 <= len b -> needed_bytes W b = N.
+Proof.
+  intros HW Hh.
+  destruct (needed_of_header W h total (h ++ z) HW Hh) as (N & H1 & _ & H3 & H4).
+  - intros b x HD Hb. apply (prefix_split h b x z); [symmetry; exact HD|].
+    rewrite (header_len _ _ Hh). exact Hb.
+  - exists N. repeat split; assumption.
 Qed.
 
 (** arbitrary bytes *)
@@ -837,42 +882,40 @@ Proof.
   cbn [skipn]. cbn [bytes_ok forallb] in H. apply andb_true_iff in H. destruct H as [_ H2]. apply IH. exact H2.
 Qed.
 
-Lemma bytes_ok_app_l a b : bytes_ok (a ++ b) = true -> bytes_ok a = true.
-Proof. unfold bytes_ok. rewrite forallb_app. intros H. apply andb_true_iff in H. tauto. Qed.
-
-(** On 64-bit platforms the size computed from bytes is between 8 and 2^32 + 15: no wrap-around. *)
-Lemma needed_bytes_range b : bytes_ok b = true -> 8 <= needed_bytes 64 b <= 2 ^ 32 + 15.
+(** The size computed from bytes is -1 or between 8 and MaxInt: no wrap-around, whatever the width of int. *)
+Lemma needed_bytes_range W b : 0 < W -> bytes_ok b = true ->
+  needed_bytes W b = -1 \/ 8 <= needed_bytes W b <= Z.max 8 (max_int W).
 Proof.
-  intros Hb. unfold needed_bytes, rd_padded_len, rd_len.
-  change (2 ^ 32) with 4294967296.
-  destruct (Z.ltb_spec (len b) 8) as [?|H8]; [lia|].
+  intros HW Hb. unfold needed_bytes, rd_padded_len, rd_len.
+  destruct (Z.ltb_spec (len b) 8) as [?|H8]; [right; lia|].
   destruct (Z.eqb_spec (len b) 0) as [?|_]; [lia|].
   assert (Hu : 0 <= unbe (take 4 (drop 4 b)) < 2 ^ 32).
   { apply unbe_bound4.
     - unfold take. rewrite firstn_length. lia.
     - unfold take, drop. apply bytes_ok_firstn. apply bytes_ok_skipn. exact Hb. }
-  change (2 ^ 32) with 4294967296 in Hu.
   set (l := unbe (take 4 (drop 4 b))) in *.
+  destruct (Z.gtb_spec l (max_int W - 16)) as [Hbig|Hfit]; [left; reflexivity|]. right.
+  unfold max_int in *.
   pose proof (pad8_range l) as Hp.
-  assert (H63 : 2 ^ (64 - 1) = 9223372036854775808) by reflexivity.
-  rewrite (wrap_small 64 l) by lia.
+  assert (Hpos : 0 < 2 ^ (W - 1)) by (apply Z.pow_pos_nonneg; lia).
+  rewrite (wrap_small W l) by lia.
   rewrite pad_for_len8_nonneg by lia.
-  rewrite (wrap_small 64 (l + pad8 l)) by lia.
+  rewrite (wrap_small W (l + pad8 l)) by lia.
   rewrite wrap_small by lia. lia.
 Qed.
 
-(** The size announced by the first 8 bytes of [D] (8 when there are fewer). *)
-Definition announced (D : list Z) : Z := needed_bytes 64 (take 8 D).
+(** The size announced by the first 8 bytes of [D] (8 when there are fewer, -1 when an int cannot hold it). *)
+Definition announced (W : Z) (D : list Z) : Z := needed_bytes W (take 8 D).
 
-Lemma HN_bytes D : forall b x, D = b ++ x -> 8 <= len b -> needed_bytes 64 b = announced D.
+Lemma HN_bytes W D : forall b x, D = b ++ x -> 8 <= len b -> needed_bytes W b = announced W D.
 Proof.
   intros b x HD Hb. unfold announced. subst D.
   rewrite st_take_app_le by lia.
   rewrite <- (st_take_drop 8 b) at 1. apply needed_bytes_prefix. rewrite st_len_take. lia.
 Qed.
 
-Lemma announced_range D : bytes_ok D = true -> 8 <= announced D <= 2 ^ 32 + 15.
-Proof. intros H. apply needed_bytes_range. unfold take. apply bytes_ok_firstn. exact H. Qed.
+Lemma announced_range W D : 0 < W -> bytes_ok D = true -> announced W D = -1 \/ 8 <= announced W D <= Z.max 8 (max_int W).
+Proof. intros HW H. apply needed_bytes_range; [exact HW|]. unfold take. apply bytes_ok_firstn. exact H. Qed.
 
 (* ------------------------------------------------------------------ the results *)
 
@@ -885,35 +928,38 @@ Qed.
 Section Results.
   Variable M : Type.
   Variable um : list Z -> res M.
+  Variable W : Z.
   Variable max : Z.
+  Hypothesis HW : 0 < W.
 
-  Notation recv := (recv M um 64 max).
-  Notation recv_n := (recv_n M um 64 max).
+  Notation recv := (recv M um W max).
+  Notation recv_n := (recv_n M um W max).
+  Notation fits := (fun f : list Z => len f + 8 <= max_int W).
 
   (** One complete item at the head of the stream, a faithful transport. *)
   Lemma recv_frame f tail t :
-    is_frame f -> (0 < max -> len f <= max) -> faithful (t_sched t) -> t_rest t = f ++ tail ->
+    is_frame f -> fits f -> (0 < max -> len f <= max) -> faithful (t_sched t) -> t_rest t = f ++ tail ->
     let r := recv t in
     r_out r = RMsg (um f) /\ t_rest (r_tr r) = tail /\ faithful (t_sched (r_tr r)) /\
     t_end (r_tr r) = t_end t /\ consumed r = len f.
   Proof.
-    intros Hf Hmax Hfa Ht r.
+    intros Hf Hfit Hmax Hfa Ht r.
     pose proof (frame_len_ge8 f Hf) as H8.
-    pose proof (HN_frame f tail Hf) as HN.
+    destruct (HN_frame_gen W f tail HW Hf) as (N & _ & HNf & HN). specialize (HNf Hfit). subst N.
     assert (Hm8 : 0 < max -> 8 <= max) by (intros Hm; specialize (Hmax Hm); lia).
-    pose proof (recv_progress M um 64 max (f ++ tail) (len f) HN H8 Hm8 (t_end t) t Ht Hfa eq_refl) as (_ & HB & _).
+    pose proof (recv_progress M um W max (f ++ tail) (len f) HN (or_intror H8) Hm8 (t_end t) t Ht Hfa eq_refl) as (_ & HB & _).
     assert (Hno : ~ oversize max (len f)) by (unfold oversize; lia).
     assert (Hle : len f <= len (f ++ tail)) by (rewrite st_len_app; pose proof (st_len_nonneg tail); lia).
     destruct (HB Hno Hle) as (Ho & Hr & Hf' & He).
     rewrite st_take_app_exact in Ho. rewrite st_drop_app_exact in Hr.
     fold r in Ho, Hr, Hf', He. repeat split; try assumption.
-    pose proof (recv_safe M um 64 max (f ++ tail) (len f) HN H8 t Ht) as (_ & p & HD & Hc & _ & _ & Hmsg & _).
+    pose proof (recv_safe M um W max (f ++ tail) (len f) HN (or_intror H8) t Ht) as (_ & p & HD & Hc & _ & _ & Hmsg & _).
     fold r in HD, Hc, Hmsg. destruct (Hmsg _ Ho) as [Hp _]. lia.
   Qed.
 
   (** Exact delivery: any number of items of any size, any faithful chunking. *)
   Lemma recv_exact frames : forall tail t,
-    Forall is_frame frames -> (0 < max -> Forall (fun f => len f <= max) frames) ->
+    Forall is_frame frames -> Forall fits frames -> (0 < max -> Forall (fun f => len f <= max) frames) ->
     faithful (t_sched t) -> t_rest t = concat frames ++ tail ->
     let rs := recv_n (length frames) t in
     map r_out rs = map (fun f => RMsg (um f)) frames /\
@@ -921,14 +967,14 @@ Section Results.
     map (fun r => t_rest (r_tr r)) rs = tails frames tail /\
     t_rest (last_tr t rs) = tail /\ faithful (t_sched (last_tr t rs)) /\ t_end (last_tr t rs) = t_end t.
   Proof.
-    induction frames as [|f fs IH]; intros tail t Hfr Hmax Hfa Ht.
+    induction frames as [|f fs IH]; intros tail t Hfr Hfit Hmax Hfa Ht.
     - cbn [length Stream.recv_n map tails last_tr last]. cbn [concat app] in Ht. repeat split; try reflexivity; assumption.
-    - inversion Hfr as [|? ? Hf Hfs]; subst.
+    - inversion Hfr as [|? ? Hf Hfs]; subst. inversion Hfit as [|? ? Hff Hffs]; subst.
       cbn [concat] in Ht. rewrite <- app_assoc in Ht.
       assert (Hmf : 0 < max -> len f <= max) by (intros Hm; specialize (Hmax Hm); inversion Hmax; assumption).
       assert (Hmfs : 0 < max -> Forall (fun f => len f <= max) fs) by (intros Hm; specialize (Hmax Hm); inversion Hmax; assumption).
-      destruct (recv_frame f (concat fs ++ tail) t Hf Hmf Hfa Ht) as (Ho & Hr & Hf' & He & Hc).
-      specialize (IH tail (r_tr (recv t)) Hfs Hmfs Hf' Hr).
+      destruct (recv_frame f (concat fs ++ tail) t Hf Hff Hmf Hfa Ht) as (Ho & Hr & Hf' & He & Hc).
+      specialize (IH tail (r_tr (recv t)) Hfs Hffs Hmfs Hf' Hr).
       destruct IH as (I1 & I2 & I3 & I4 & I5 & I6).
       cbn [length Stream.recv_n map tails]. rewrite Ho, Hc, Hr, I1, I2, I3.
       repeat split; try reflexivity.
@@ -946,77 +992,71 @@ Section Results.
     unfold last_tr. cbn [map]. rewrite st_last_cons. reflexivity.
   Qed.
 
-  (** Clean end of stream, or a stream that ends inside an item: the transport's end error. *)
+  (** Clean end of stream: the transport's end error. *)
   Lemma recv_end t : faithful (t_sched t) -> t_rest t = [] -> r_out (recv t) = RErr (t_end t).
   Proof.
     intros Hfa Ht.
-    assert (HN : forall b x : list Z, [] = b ++ x -> 8 <= len b -> needed_bytes 64 b = 8).
-    { intros b x Hb H8. destruct b; [rewrite st_len_nil in H8; lia | discriminate]. }
-    assert (Hm8 : 0 < max -> 8 <= max \/ True) by (intros; right; exact I).
-    destruct (Z_lt_le_dec 0 max) as [Hpos|Hnpos].
-    - (* the limit is irrelevant: nothing is read *)
-      pose proof (recv_safe M um 64 max [] 8 HN ltac:(lia) t Ht) as (Hnp & p & HD & Hc & _ & _ & Hmsg & Hbig & _).
-      destruct p; [|discriminate]. cbn [app] in HD.
-      destruct (Z_lt_le_dec max 8) as [Hsmall|Hbig8].
-      + (* a limit below 8: the analysis of progress does not apply, go through the first step *)
-        unfold Stream.recv. rewrite Nat.add_comm. cbn [Nat.add Stream.recv_loop].
-        destruct (tr_read (l_tr (recv_init t)) (l_need (recv_init t) - l_read (recv_init t))) as [[chunk err] t'] eqn:Htr.
-        rewrite (recv_step_simpl M um 64 max _ chunk err t' (inv0_init 64 t) Htr).
-        cbn [recv_init l_tr l_need l_read] in Htr.
-        pose proof (tr_read_faithful _ _ _ _ _ Htr ltac:(lia) Hfa) as (_ & Hempty & _).
-        destruct (Hempty Ht) as [Hch Herr]. subst chunk err.
-        unfold step_simpl. cbn [recv_init l_read l_need l_cap l_trace l_tr l_buf].
-        unfold buf0. cbn. reflexivity.
-      + pose proof (recv_progress M um 64 max [] 8 HN ltac:(lia) ltac:(intros; lia) (t_end t) t Ht Hfa eq_refl) as (_ & _ & HC).
-        rewrite st_len_nil in HC. destruct (HC ltac:(lia) ltac:(left; lia)) as [Ho _]. exact Ho.
-    - pose proof (recv_progress M um 64 max [] 8 HN ltac:(lia) ltac:(intros; lia) (t_end t) t Ht Hfa eq_refl) as (_ & _ & HC).
-      rewrite st_len_nil in HC. destruct (HC ltac:(lia) ltac:(left; lia)) as [Ho _]. exact Ho.
+    unfold Stream.recv. rewrite Nat.add_comm. cbn [Nat.add Stream.recv_loop].
+    destruct (tr_read (l_tr (recv_init t)) (l_need (recv_init t) - l_read (recv_init t))) as [[chunk err] t'] eqn:Htr.
+    rewrite (recv_step_simpl M um W max _ chunk err t' (inv0_init W t) Htr).
+    cbn [recv_init l_tr l_need l_read] in Htr.
+    pose proof (tr_read_faithful _ _ _ _ _ Htr ltac:(lia) Hfa) as (_ & Hempty & _).
+    destruct (Hempty Ht) as [Hch Herr]. subst chunk err.
+    unfold step_simpl. cbn [recv_init l_read l_need l_cap l_trace l_tr l_buf].
+    unfold buf0. cbn. reflexivity.
   Qed.
 
+  (** A stream that ends inside an item, a faithful transport: an error. *)
   Lemma recv_cut p t :
     is_cut_frame p -> (0 < max -> 8 <= max) -> faithful (t_sched t) -> t_rest t = p ->
     r_out (recv t) = RErr (t_end t) \/ r_out (recv t) = RTooBig.
   Proof.
     intros (f & q & Hf & Hfp & Hq) Hm8 Hfa Ht.
     pose proof (frame_len_ge8 f Hf) as H8.
-    pose proof (HN_cut p f q Hf Hfp) as HN.
-    pose proof (recv_progress M um 64 max p (len f) HN H8 Hm8 (t_end t) t Ht Hfa eq_refl) as (HA & _ & HC).
+    destruct (HN_cut_gen W p f q HW Hf Hfp) as (N & HNc & _ & HN).
+    assert (HN8 : N < 0 \/ 8 <= N) by (destruct HNc; lia).
+    pose proof (recv_progress M um W max p N HN HN8 Hm8 (t_end t) t Ht Hfa eq_refl) as (HA & _ & HC).
     assert (Hlt : len p < len f).
     { rewrite Hfp, st_len_app. destruct q; [congruence|]. unfold len. cbn [length]. lia. }
     destruct (Z_lt_le_dec (len p) 8) as [Hs|Hl].
-    - left. destruct (HC Hlt (or_introl Hs)) as [Ho _]. exact Ho.
-    - destruct (Z_lt_le_dec 0 max) as [Hpos|Hnpos].
-      + destruct (Z_lt_le_dec max (len f)) as [Hov|Hfit].
-        * right. apply HA; [exact Hl | split; assumption].
-        * left. destruct (HC Hlt) as [Ho _]; [right; unfold oversize; lia | exact Ho].
-      + left. destruct (HC Hlt) as [Ho _]; [right; unfold oversize; lia | exact Ho].
+    - left. destruct (HC (or_introl Hs)) as [Ho _]. exact Ho.
+    - destruct HNc as [Hneg|Heq].
+      + right. apply HA; [exact Hl | left; lia].
+      + subst N. destruct (Z_lt_le_dec 0 max) as [Hpos|Hnpos].
+        * destruct (Z_lt_le_dec max (len f)) as [Hov|Hfit].
+          -- right. apply HA; [exact Hl | right; split; assumption].
+          -- left. assert (Hno : ~ oversize max (len f)) by (unfold oversize; lia).
+             destruct (HC (or_intror (conj Hno Hlt))) as [Ho _]. exact Ho.
+        * left. assert (Hno : ~ oversize max (len f)) by (unfold oversize; lia).
+          destruct (HC (or_intror (conj Hno Hlt))) as [Ho _]. exact Ho.
   Qed.
 
   Lemma recv_cut_fits p f q t :
-    is_frame f -> f = p ++ q -> q <> [] -> (0 < max -> len f <= max) -> faithful (t_sched t) -> t_rest t = p ->
+    is_frame f -> f = p ++ q -> q <> [] -> fits f -> (0 < max -> len f <= max) -> faithful (t_sched t) -> t_rest t = p ->
     r_out (recv t) = RErr (t_end t).
   Proof.
-    intros Hf Hfp Hq Hmax Hfa Ht.
+    intros Hf Hfp Hq Hfit Hmax Hfa Ht.
     pose proof (frame_len_ge8 f Hf) as H8.
-    pose proof (HN_cut p f q Hf Hfp) as HN.
+    destruct (HN_cut_gen W p f q HW Hf Hfp) as (N & _ & HNf & HN). specialize (HNf Hfit). subst N.
     assert (Hm8 : 0 < max -> 8 <= max) by (intros Hm; specialize (Hmax Hm); lia).
-    pose proof (recv_progress M um 64 max p (len f) HN H8 Hm8 (t_end t) t Ht Hfa eq_refl) as (_ & _ & HC).
+    pose proof (recv_progress M um W max p (len f) HN (or_intror H8) Hm8 (t_end t) t Ht Hfa eq_refl) as (_ & _ & HC).
     assert (Hlt : len p < len f).
     { rewrite Hfp, st_len_app. destruct q; [congruence|]. unfold len. cbn [length]. lia. }
-    destruct (HC Hlt) as [Ho _]; [right; unfold oversize; lia | exact Ho].
+    assert (Hno : ~ oversize max (len f)) by (unfold oversize; lia).
+    destruct (HC (or_intror (conj Hno Hlt))) as [Ho _]. exact Ho.
   Qed.
 
   (** Messages, then a stream that ends cleanly or inside an item: the messages, then the end error. *)
   Lemma recv_truncated frames p t :
-    Forall is_frame frames -> (0 < max -> Forall (fun f => len f <= max) frames) ->
-    (p = [] \/ exists f q, is_frame f /\ f = p ++ q /\ q <> [] /\ (0 < max -> len f <= max)) ->
+    Forall is_frame frames -> Forall fits frames -> (0 < max -> Forall (fun f => len f <= max) frames) ->
+    (p = [] \/ exists f q, is_frame f /\ f = p ++ q /\ q <> [] /\ fits f /\ (0 < max -> len f <= max)) ->
     faithful (t_sched t) -> t_rest t = concat frames ++ p ->
     map r_out (recv_n (S (length frames)) t) = map (fun f => RMsg (um f)) frames ++ [RErr (t_end t)].
   Proof.
-    intros Hfr Hmax Hp Hfa Ht.
-    destruct (recv_exact frames p t Hfr Hmax Hfa Ht) as (I1 & _ & _ & I4 & I5 & I6).
+    intros Hfr Hfits Hmax Hp Hfa Ht.
+    destruct (recv_exact frames p t Hfr Hfits Hmax Hfa Ht) as (I1 & _ & _ & I4 & I5 & I6).
     rewrite recv_n_snoc, map_app, I1. cbn [map]. f_equal. f_equal. rewrite <- I6.
-    destruct Hp as [Hp|(f & q & Hf & Hfp & Hq & Hfit)].
+    destruct Hp as [Hp|(f & q & Hf & Hfp & Hq & Hff & Hfit)].
     - apply recv_end; [exact I5 | rewrite I4; exact Hp].
     - apply (recv_cut_fits p f q); assumption.
   Qed.
@@ -1029,28 +1069,29 @@ Section Results.
   Proof.
     intros (f & q & Hf & Hfp & Hq) Ht.
     pose proof (frame_len_ge8 f Hf) as H8.
-    pose proof (HN_cut p f q Hf Hfp) as HN.
-    pose proof (recv_safe M um 64 max p (len f) HN H8 t Ht) as (Hnp & p' & HD & Hc & _ & _ & Hmsg & _).
+    destruct (HN_cut_gen W p f q HW Hf Hfp) as (N & HNc & _ & HN).
+    assert (HN8 : N < 0 \/ 8 <= N) by (destruct HNc; lia).
+    pose proof (recv_safe M um W max p N HN HN8 t Ht) as (Hnp & p' & HD & Hc & _ & _ & Hmsg & _).
     split; [|split; [exact Hnp | apply recv_terminates]].
-    intros x Hx. destruct (Hmsg x Hx) as [Hl _].
+    intros x Hx. destruct (Hmsg x Hx) as (Hl & _ & Hno).
     assert (len p' <= len p) by (rewrite HD; rewrite st_len_app; pose proof (st_len_nonneg (t_rest (r_tr (recv t)))); lia).
     assert (len p < len f).
     { rewrite Hfp, st_len_app. destruct q; [congruence|]. unfold len. cbn [length]. lia. }
-    lia.
+    destruct HNc as [Hneg|Heq]; [apply Hno; left; lia | lia].
   Qed.
 
   (** Never more than the current item: requests, consumption, and the bytes that follow it. *)
-  Lemma recv_no_overread f tail t : is_frame f -> t_rest t = f ++ tail ->
+  Lemma recv_no_overread f tail t : is_frame f -> fits f -> t_rest t = f ++ tail ->
     let r := recv t in
     r_out r <> RPanic /\
     trace_ok (len f) 0 (r_trace r) /\
     (exists p, f ++ tail = p ++ t_rest (r_tr r) /\ consumed r = len p /\ len p <= len f) /\
     (forall x, r_out r = RMsg x -> x = um f /\ t_rest (r_tr r) = tail /\ consumed r = len f).
   Proof.
-    intros Hf Ht r.
+    intros Hf Hfit Ht r.
     pose proof (frame_len_ge8 f Hf) as H8.
-    pose proof (HN_frame f tail Hf) as HN.
-    pose proof (recv_safe M um 64 max (f ++ tail) (len f) HN H8 t Ht) as (Hnp & p & HD & Hc & Hle & _ & Hmsg & _ & _ & Htr).
+    destruct (HN_frame_gen W f tail HW Hf) as (N & _ & HNf & HN). specialize (HNf Hfit). subst N.
+    pose proof (recv_safe M um W max (f ++ tail) (len f) HN (or_intror H8) t Ht) as (Hnp & p & HD & Hc & Hle & _ & Hmsg & _ & _ & Htr).
     fold r in Hnp, HD, Hc, Hmsg, Htr.
     split; [exact Hnp|]. split; [exact Htr|]. split.
     - exists p. repeat split; try assumption. lia.
@@ -1061,18 +1102,23 @@ Section Results.
       subst p. split; [|lia]. apply app_inv_head in HD. symmetry. exact HD.
   Qed.
 
-  (** An oversize header is never accepted, the buffer is not grown, the body is not read. *)
-  Lemma recv_oversize_any h total z t : is_header h total -> 0 < max < total -> t_rest t = h ++ z ->
+  (** A header announcing more than the limit, or more than an int can hold: never accepted,
+      the buffer is not grown, the body is not read. *)
+  Lemma recv_oversize_any h total z t :
+    is_header h total -> (0 < max < total \/ max_int W < total) -> t_rest t = h ++ z ->
     let r := recv t in
     (forall x, r_out r <> RMsg x) /\ r_out r <> RPanic /\ r_out r <> RFuel /\
     r_cap r = buf0 /\ consumed r <= 8.
   Proof.
     intros Hh Hmx Ht r.
     pose proof (header_total_ge8 _ _ Hh) as H8.
-    pose proof (HN_header h total z Hh) as HN.
-    pose proof (recv_safe M um 64 max (h ++ z) total HN H8 t Ht) as (Hnp & p & HD & Hc & _ & Hov & Hmsg & _ & Hcap & _).
+    destruct (HN_header_gen W h total z HW Hh) as (N & HNc & HNu & HN).
+    assert (HN8 : N < 0 \/ 8 <= N) by (destruct HNc; lia).
+    pose proof (recv_safe M um W max (h ++ z) N HN HN8 t Ht) as (Hnp & p & HD & Hc & _ & Hov & Hmsg & _ & Hcap & _).
     fold r in Hnp, HD, Hc, Hmsg, Hcap.
-    assert (Hos : oversize max total) by (unfold oversize; lia).
+    assert (Hos : oversize max N).
+    { unfold oversize. destruct Hmx as [Hmx|Hmx]; [|left; rewrite (HNu Hmx); lia].
+      destruct HNc as [->| ->]; [left; lia | right; lia]. }
     repeat split.
     - intros x Hx. destruct (Hmsg x Hx) as (_ & _ & Hno). exact (Hno Hos).
     - exact Hnp.
@@ -1082,16 +1128,19 @@ Section Results.
   Qed.
 
   Lemma recv_oversize_faithful h total z t :
-    is_header h total -> 0 < max < total -> 8 <= max -> faithful (t_sched t) -> t_rest t = h ++ z ->
+    is_header h total -> (0 < max < total \/ max_int W < total) -> (0 < max -> 8 <= max) ->
+    faithful (t_sched t) -> t_rest t = h ++ z ->
     r_out (recv t) = RTooBig.
   Proof.
     intros Hh Hmx Hm8 Hfa Ht.
     pose proof (header_total_ge8 _ _ Hh) as H8.
-    pose proof (HN_header h total z Hh) as HN.
-    pose proof (recv_progress M um 64 max (h ++ z) total HN H8 ltac:(intros; exact Hm8) (t_end t) t Ht Hfa eq_refl) as (HA & _).
+    destruct (HN_header_gen W h total z HW Hh) as (N & HNc & HNu & HN).
+    assert (HN8 : N < 0 \/ 8 <= N) by (destruct HNc; lia).
+    pose proof (recv_progress M um W max (h ++ z) N HN HN8 Hm8 (t_end t) t Ht Hfa eq_refl) as (HA & _).
     apply HA.
     - rewrite st_len_app, (header_len _ _ Hh). pose proof (st_len_nonneg z). lia.
-    - unfold oversize. lia.
+    - unfold oversize. destruct Hmx as [Hmx|Hmx]; [|left; rewrite (HNu Hmx); lia].
+      destruct HNc as [->| ->]; [left; lia | right; lia].
   Qed.
 
   (** Arbitrary bytes, arbitrary transport: no panic, termination, bounded buffer and consumption. *)
@@ -1099,28 +1148,29 @@ Section Results.
     let r := recv t in
     r_out r <> RPanic /\ r_out r <> RFuel /\
     (0 < max -> r_cap r <= Z.max buf0 max) /\
-    r_cap r <= Z.max buf0 (announced (t_rest t)) /\
-    consumed r <= Z.max 8 (announced (t_rest t)) /\ consumed r <= len (t_rest t).
+    r_cap r <= Z.max buf0 (announced W (t_rest t)) /\
+    consumed r <= Z.max 8 (announced W (t_rest t)) /\ consumed r <= len (t_rest t).
   Proof.
     intros Hb r.
-    pose proof (announced_range _ Hb) as [H8 _].
-    pose proof (recv_safe M um 64 max (t_rest t) (announced (t_rest t)) (HN_bytes _) H8 t eq_refl)
-      as (Hnp & p & HD & Hc & Hle & _ & _ & _ & Hcap & _).
+    pose proof (announced_range W _ HW Hb) as Hrange.
+    assert (HN8 : announced W (t_rest t) < 0 \/ 8 <= announced W (t_rest t)) by lia.
+    pose proof (recv_safe M um W max (t_rest t) (announced W (t_rest t)) (HN_bytes W _) HN8 t eq_refl)
+      as (Hnp & p & HD & Hc & Hle & Hov & _ & _ & Hcap & _).
     fold r in Hnp, HD, Hc, Hcap.
-    split; [exact Hnp|]. split; [apply recv_terminates|]. unfold oversize in Hcap. repeat split.
+    split; [exact Hnp|]. split; [apply recv_terminates|]. unfold oversize in Hcap, Hov. repeat split.
     - intros Hm. destruct Hcap as [->|(-> & _ & _ & Hno)]; lia.
     - destruct Hcap as [->|(-> & _)]; lia.
-    - lia.
+    - destruct Hle; lia.
     - rewrite Hc. pose proof (st_len_nonneg (t_rest (r_tr r))) as Hnn. rewrite HD, st_len_app. lia.
   Qed.
 End Results.
 
-(* ------------------------------------------------------------------ 32-bit int: refutations *)
+(* ------------------------------------------------------------------ 32-bit int *)
 
-(** On a platform where Go's [int] has 32 bits the length field wraps around:
-    [computeNeededBytes] returns 8 for an announced length of 2^32-1 and a negative number
-    for 2^31, so the size limit is by-passed. (Evaluated in the model only: the harness
-    runs on a 64-bit platform.) *)
+(** Where Go's [int] has 32 bits an announced length of 2^31 or more does not fit.  Before the
+    commit "fix: Stream.Recv rejects announced lengths that overflow int on 32-bit platforms"
+    [computeNeededBytes] wrapped around (8 for 0xFFFFFFFF, negative for 0x80000000), by-passing
+    the limit; now such a header is refused, with or without a configured limit. *)
 Definition hdr_ffffffff : list Z := [66; 0; 1; 8; 255; 255; 255; 255].
 Definition hdr_80000000 : list Z := [66; 0; 1; 8; 128; 0; 0; 0].
 
@@ -1130,13 +1180,12 @@ Proof. exists [66; 0; 1], 8, (2 ^ 32 - 1). repeat split; try reflexivity; vm_com
 Lemma hdr_80000000_is_header : is_header hdr_80000000 (2 ^ 31 + 8).
 Proof. exists [66; 0; 1], 8, (2 ^ 31). repeat split; try reflexivity; vm_compute; congruence. Qed.
 
-Lemma recv32_oversize_accepted M (um : list Z -> res M) :
-  r_out (recv M um 32 1048576 (mkTr (hdr_ffffffff ++ zeros 64) 0 [])) = RMsg (um hdr_ffffffff).
-Proof. vm_compute. reflexivity. Qed.
-
-Lemma recv32_oversize_panics M (um : list Z -> res M) :
-  r_out (recv M um 32 1048576 (mkTr (hdr_80000000 ++ zeros 64) 0 [])) = RPanic.
-Proof. vm_compute. reflexivity. Qed.
+Lemma ex_int32_rejected M (um : list Z -> res M) :
+  r_out (recv M um 32 1048576 (mkTr (hdr_ffffffff ++ zeros 64) 0 [])) = RTooBig /\
+  r_out (recv M um 32 1048576 (mkTr (hdr_80000000 ++ zeros 64) 0 [])) = RTooBig /\
+  r_out (recv M um 32 (-1) (mkTr (hdr_ffffffff ++ zeros 64) 0 [])) = RTooBig /\
+  r_cap (recv M um 32 (-1) (mkTr (hdr_80000000 ++ zeros 64) 0 [])) = 512.
+Proof. vm_compute. repeat split. Qed.
 
 (* ------------------------------------------------------------------ examples (non-vacuity) *)
 
